@@ -25,7 +25,7 @@ func runC18(c *core.Ctx) core.Meta {
 	// R18.1 SEND-DISCIPLINE
 	RunProto(c, &ProtoCfg{
 		AllEffectsAfterSend: true,
-		RuleBase: "R18.1", Pkg: rdmaPkg, FloorSends: 6,
+		RuleBase:            "R18.1", Pkg: rdmaPkg, FloorSends: 6,
 		Effects: []Effect{
 			RetrieveEffect,
 			FieldWriteEffect("fromInside-table-write", "Comp.transactionsFromInside"),
